@@ -220,7 +220,7 @@ func checkC09(tier, replay string) int {
 	rep.Rule = "For {asa, ios, linux, panos, nsx} x {drc, do-approve} x {approve, compare(do-approve only)} x 3 scenarios: a fault of kind " +
 		"{error text, unexpected output, tolerated notice lines followed by an error line (ASA/IOS change commands), wrong echo, connection close, stall beyond timeout | HTTP 500, HTTP 403, close, malformed body, status=error, stall, commit job FAIL, PEND..FAIL} " +
 		"is injected at every ordinal position of the reference dialogue (login, terminal setup, hostname, retrieval, each change command incl. second half of joined lines, save/commit, job poll), " +
-		"plus IOS write-memory variants. Oracle after a delivered fault: no later config-change, no later save/commit, exit != 0, do-approve status FAILED (approve) / DIFF (compare), history END: FAILED; " +
+		"plus IOS write-memory variants (NVRAM overwrite question then OK / then too large / then open failed, too large, no [OK], busy once then OK, busy always). Oracle after a delivered fault: no later config-change, no later save/commit, exit != 0, do-approve status FAILED (approve) / DIFF (compare), history END: FAILED; " +
 		"converse on every run: status OK only without delivered fault, with all commands accepted and save confirmed. " +
 		"Non-trivial = fault was delivered (seen in transcript). quick: stalls at every 5th position; thorough: everything."
 	rep.Assumptions = []string{
@@ -298,7 +298,7 @@ func checkC09(tier, replay string) int {
 				}
 			}
 			if k.typ == "ios" && !k.cmp {
-				for _, wm := range []string{"nvram-confirm", "too-large", "no-ok"} {
+				for _, wm := range []string{"nvram-confirm", "too-large", "no-ok", "nvram-confirm-too-large", "nvram-confirm-open-failed", "busy-once", "busy-always"} {
 					cases = append(cases, &c09Case{Type: k.typ, FrontEnd: k.fe, Scenario: k.sc, WriteMem: wm})
 				}
 			}
@@ -340,7 +340,8 @@ func checkC09(tier, replay string) int {
 		}
 		clause, what := judgeC09(c, lr)
 		// write memory variants without [OK] must fail like faults.
-		if clause == "" && (c.WriteMem == "too-large" || c.WriteMem == "no-ok") {
+		if clause == "" && (c.WriteMem == "too-large" || c.WriteMem == "no-ok" || c.WriteMem == "nvram-confirm-too-large" ||
+			c.WriteMem == "nvram-confirm-open-failed" || c.WriteMem == "busy-always") {
 			st := parseStatus(lr.Status)
 			if lr.Res.Exit == 0 {
 				clause, what = "exit-0", "write memory without [OK] but exit 0"
@@ -348,7 +349,7 @@ func checkC09(tier, replay string) int {
 				clause, what = "status-not-FAILED", "write memory without [OK], status "+st.Approve.Result
 			}
 		}
-		if clause == "" && c.WriteMem == "nvram-confirm" && lr.Res.Exit != 0 {
+		if clause == "" && (c.WriteMem == "nvram-confirm" || c.WriteMem == "busy-once") && lr.Res.Exit != 0 {
 			clause, what = "healthy-run-failed", "NVRAM overwrite confirmation is a documented variant of write memory: "+firstLines(lr.Res.Stderr, 2)
 		}
 		if clause != "" {
